@@ -118,6 +118,7 @@ impl Feig {
             password: None,
             instr: 1,
         };
+        let expected_serial = self.socket.config().feig_serial.to_lowercase();
         let mut stream = feig::sequences::GetSystemInfo::into_stream(request, &mut self.socket);
         while let Some(response) = stream.next().await {
             let Ok(response) = response else {
@@ -125,6 +126,17 @@ impl Feig {
             };
             match response {
                 feig::sequences::GetSystemInfoResponse::CVendFunctionsEnhancedSystemInformationCompletion(packet) => {
+                    // The identity was checked when connecting: a terminal which reports
+                    // another serial number now must not be used any further.
+                    let actual_serial = packet.device_id.to_lowercase();
+                    if actual_serial != expected_serial {
+                        drop(stream);
+                        self.socket.reset();
+                        bail!(std::io::Error::new(
+                            std::io::ErrorKind::NotConnected,
+                            format!("Wrong device. Expected {}, got {}", expected_serial, actual_serial)
+                        ))
+                    }
                     return Ok(packet)
                 },
                 feig::sequences::GetSystemInfoResponse::Abort(packet) => bail!(zvt::ZVTError::Aborted(packet.error))
